@@ -11,6 +11,9 @@ R15.2 every store to total_length is the constant 0 or `load total_length + zext
       operation and reaches the stored length field of the padding.
 R15.4 in every assembly manager the minimum over the packed lane-length words is an unsigned minimum (a single
       submit of 2^31 bytes or more sets bit 31 of its word).
+R15.5 the store of the bit length into the padding that the C source asks for survives in the object built with the
+      real flags: some instruction attributed to that source line writes memory (the type-punned uint64_t store into
+      a byte buffer is undefined behaviour that -O2 may delete; lib/survive.py).
 R15.3 in the SHA-512 hash_pad the upper 8 bytes of the 16-byte length field are written (zero) together with
       the lower 8 (synchronous base variant: zero-fill loop, not judged).
 """
@@ -244,6 +247,11 @@ def run(chk):
                     chk.obligation("R15.4", ok, key=(name, i.addr), sample={"function": name, "insn": i.text.strip()})
                     if not ok:
                         chk.finding(Finding("R15.4", f.obj.name, name, "signed-min", "`%s`: the minimum over the packed lane-length words must be unsigned; a submit of 2^31 bytes or more sets the top bit of its word and a signed minimum then picks the wrong lane" % i.text.strip(), loc=f.obj.line_of(f.sec, i.addr)))
+    # ---- R15.5 (object code): the bit-length store survives optimisation
+    import mhrules
+    libc = x86.Library([u for u in allunits if u["kind"] == "c" and CTX_UNIT.match(u["src"])])
+    n_surv = mhrules.length_store_survives(chk, "R15.5", libc, mods)
+    chk.floor("bit-length stores checked for survival in the object code", n_surv, 28)
     chk.floor("assembly managers scanned for the lane minimum", n_mgr, 40)
     chk.floor("lane-minimum instructions", n_min, 60)
     chk.floor("64-bit total_length updates", n_adds, 28)
